@@ -22,12 +22,45 @@ RULE = ('load: real ISMRMRD/HDF5 files written per case (labels k1,k2 + up to 2 
         'every AcqInfo field and trajectory compared exactly with Model/KLoad.v under vm_compute; a second file with another order and '
         'without the rejected acquisitions must load identically. permutations: every order of a small file. flag_filter: every single '
         'flag bit. pulseq: pypulseq-written .seq files. Non-trivial = at least 2 kept acquisitions in a non-sorted file order; distinct by case hash.')
-TRUSTED_BASE = ['harness/ismrmrd_writer.py (ids encoded in data / trajectory / header fields) and the ismrmrd + h5py libraries that store them',
+TRUSTED_BASE = ['translator harness/translate/kload.py (ast -> Gallina for AcqFlags, DEFAULT_IGNORE_FLAGS, KDIM_SORT_LABELS, OTHER_LABELS; fail-closed)',
+                'harness/ismrmrd_writer.py (ids encoded in data / trajectory / header fields) and the ismrmrd + h5py libraries that store them',
                 'numpy lexsort, einops.rearrange, torch.unique (modelled as stable sort / row-major reshape / counting, validated by correspondence)',
                 'pypulseq calculate_kspace as the oracle for sequence events (modelled not verified)']
 ASSUMPTIONS = ['all kept acquisitions of one file have the same number of samples (torch.stack requires it)',
                'C14_order_independent needs pairwise distinct label tuples among kept acquisitions; with duplicates the stable sort keeps file order (modelled and compared)']
 PREAMBLE = 'From MrVerif Require Import Base.Prelude Model.KLoad Model.TrajCalc.\nFrom Coq Require Import QArith.\nLocal Open Scope Z_scope.'
+
+def translate(ctx):
+    """Regenerate Gen/kload_gen.v (flag enum, default ignore mask, sort / other label tuples) from the current source and re-check
+    its proof obligations against the tables of Model/KLoad.v."""
+    from translate import kload
+    out = vlib.COQ / 'Gen' / 'kload_gen.v'
+    out.parent.mkdir(exist_ok=True)
+    ok, info = kload.write(out)
+    ctx.extra.setdefault('coverage', {})['translator_available'] = ok
+    if not ok:
+        ctx.notes.append(f'translator failed closed ({info.get("why")}); C14 bookkeeping rests on correspondence alone in this run')
+        return
+    ctx.obligations += kload.N_OBLIGATIONS
+    rc, so, se = vlib.coqc_file(out)
+    if rc == 0:
+        ctx.discharged += kload.N_OBLIGATIONS
+    else:
+        ctx.problem('proof', 'gen_kload', None,
+                    'regenerated obligation gen_*_ok (AcqFlags / DEFAULT_IGNORE_FLAGS / KDIM_SORT_LABELS / OTHER_LABELS == tables of '
+                    'Model/KLoad.v) no longer proves: ' + (se or so)[-700:])
+    # the harness lists label values in W.LABELS order: it must be the order the source (hence the model) uses
+    if tuple(info['sort_labels']) != tuple(W.LABELS):
+        ctx.problem('proof', 'gen_kload', None, f'KDIM_SORT_LABELS {info["sort_labels"]} differs from the order the harness encodes labels in {W.LABELS}')
+    # the flag numbering of the model table (= translated values, by gen_flag_table_ok) against the installed ismrmrd package
+    try:
+        import ismrmrd
+        bad = [n for n, v in info['values'].items() if hasattr(ismrmrd, n) and n != 'ACQ_NO_FLAG' and v != 1 << (getattr(ismrmrd, n) - 1)]
+        if bad:
+            ctx.problem('proof', 'gen_kload', None, f'AcqFlags members {bad} do not have the bit 1 << (ismrmrd.<name> - 1)')
+    except ImportError:
+        pass
+
 
 OTHER = ('average', 'slice', 'contrast', 'phase', 'repetition', 'set', 'user0', 'user1', 'user2', 'user3', 'user4', 'user7')
 REJECTED_FLAGS = (19, 20, 23, 24, 26, 27, 30, 31)     # noise, parallel calibration, navigation, phasecorr, hpfeedback, dummy, phase stab ref, phase stab
